@@ -80,7 +80,13 @@ func checkC01(c c01Case, o *Obs) error {
 	if c.CLI && gofastaBin() != "" {
 		dir, cleanup := caseDir("c01cli")
 		defer cleanup()
-		args := []string{"sam", "toMultiAlign", "-s", writeFile(dir, "in.sam", samTxt), "-t", strconv.Itoa(c.Threads)}
+		args := []string{"sam", "toMultiAlign", "-t", strconv.Itoa(c.Threads)}
+		stdin := ""
+		if c.Threads%2 == 1 && len(samTxt) < 60000 {
+			stdin = samTxt // the documented pipeline: minimap2 ... | gofasta sam toMultiAlign
+		} else {
+			args = append(args, "-s", writeFile(dir, "in.sam", samTxt))
+		}
 		if c.Pad {
 			args = append(args, "--pad")
 		}
@@ -93,7 +99,7 @@ func checkC01(c c01Case, o *Obs) error {
 		if c.Wrap > 0 {
 			args = append(args, "-w", strconv.Itoa(c.Wrap))
 		}
-		if err := cliAgree(o, "sam toMultiAlign", want, args...); err != nil {
+		if err := cliAgreeStdin(o, "sam toMultiAlign", want, stdin, args...); err != nil {
 			return err
 		}
 	}
